@@ -310,3 +310,138 @@ End Case.
 
 Theorem C05_holds_proof : forall c, wf c = true -> kf c = 0%N -> spec c (model c) = true.
 Proof. intros c H1 H2. now apply holds. Qed.
+
+(* ---- the resolver theorems in closed form *)
+Definition wf_vdb (vdb : list pkg) (bdeps : bool) : Prop :=
+  (forall i j p q, pkg_at vdb i = Some p -> pkg_at vdb j = Some q -> p_pn p = p_pn q -> p_slot p = p_slot q -> i = j) /\
+  (forall i j p q, pkg_at vdb i = Some p -> pkg_at vdb j = Some q -> pkg_str p = pkg_str q -> i = j) /\
+  (forall i p, pkg_at vdb i = Some p -> forall f, use_on p f = spec_use p f) /\
+  (forall i p, pkg_at vdb i = Some p ->
+     forallb (fun f => match f with FPanic => false | _ => true end) (rel_files bdeps p) = true) /\
+  (forall i p, pkg_at vdb i = Some p ->
+     p_pn p = p_cat p ++ c_sl :: base_name p /\ nosep c_sl (p_cat p) /\ nosep c_sl (base_name p)).
+
+Lemma wf_case_vdb c : wf c = true ->
+  wf_vdb (c_vdb c) (c_bdeps c) /\ is_perm_ids (length (c_vdb c)) (c_enum c) = true.
+Proof.
+  intros H. split.
+  - repeat split.
+    + apply (c_keys_nodup c H).
+    + apply (c_strs_nodup c H).
+    + apply (c_use_eq c H).
+    + apply (c_no_fpanic c H).
+    + apply (c_names_ok c H i p H0).
+    + apply (c_names_ok c H i p H0).
+    + apply (c_names_ok c H i p H0).
+  - apply (wf_parts c H).
+Qed.
+
+Section Closed.
+Variables (vdb : list pkg) (bdeps : bool) (enum : list N) (us : list uatom).
+Hypothesis Hv : wf_vdb vdb bdeps.
+Hypothesis Hp : is_perm_ids (length vdb) enum = true.
+Hypothesis Hnc : forall rq, requested vdb us = Some rq -> no_compound vdb bdeps rq.
+
+Lemma stage_spec_true : spec_stage vdb bdeps (requested vdb us) (stage_set vdb enum bdeps us) = true.
+Proof. destruct Hv as (H1 & H2 & H3 & H4 & H5). now apply stage_holds. Qed.
+
+Theorem resolve_valid L : stage_set vdb enum bdeps us = ROk L ->
+  exists rq X, requested vdb us = Some rq /\ ids_of vdb L = Some X /\
+    v_roots vdb rq X = true /\ v_closed vdb bdeps X = true /\ v_justified vdb bdeps rq X = true /\
+    v_unblocked vdb bdeps rq X = true /\ sorted_by (key_lt vdb) X = true.
+Proof.
+  intros E. pose proof stage_spec_true as S. rewrite E in S. cbn [spec_stage] in S.
+  destruct (requested vdb us) as [rq|]; [|discriminate]. destruct (ids_of vdb L) as [X|]; [|discriminate].
+  apply andb_true_iff in S as [S1 S2]. unfold valid in S1.
+  apply andb_true_iff in S1 as [S1 S4]. apply andb_true_iff in S1 as [S1 S3]. apply andb_true_iff in S1 as [S1 S2'].
+  exists rq, X. repeat split; auto.
+Qed.
+
+Theorem failure_has_reason : stage_set vdb enum bdeps us = RFailed ->
+  forall rq, requested vdb us = Some rq -> valid vdb bdeps rq (maxclosure vdb bdeps rq) = false.
+Proof.
+  intros E rq Erq. pose proof stage_spec_true as S. rewrite E, Erq in S. cbn [spec_stage] in S.
+  now apply negb_true_iff in S.
+Qed.
+
+Theorem no_crash : stage_set vdb enum bdeps us <> RDiverge /\ stage_set vdb enum bdeps us <> RPanic.
+Proof.
+  pose proof stage_spec_true as S. split; intros E; rewrite E in S; cbn [spec_stage] in S; discriminate.
+Qed.
+
+(* fails when it must: when no selection is valid the run cannot succeed *)
+Theorem fails_when_it_must :
+  (forall rq, requested vdb us = Some rq -> forall X, valid vdb bdeps rq X = false) ->
+  forall L, stage_set vdb enum bdeps us <> ROk L.
+Proof.
+  intros H L E. destruct (resolve_valid L E) as (rq & X & E1 & _ & R1 & R2 & R3 & R4 & _).
+  specialize (H rq E1 X). unfold valid in H. rewrite R1, R2, R3, R4 in H. discriminate.
+Qed.
+End Closed.
+
+(* ---- "fails instead of silently omitting", in plain terms *)
+Fixpoint mandatory (use : bytes -> bool) (d : dep) : list atomr :=
+  match d with
+  | DAtom a => [a]
+  | DGrp k l =>
+    match k with
+    | GAll => flat_map (mandatory use) l
+    | GUse f => if use f then flat_map (mandatory use) l else []
+    | GNuse f => if use f then [] else flat_map (mandatory use) l
+    | _ => []
+    end
+  end.
+
+Lemma sat_mand_mandatory vdb X use d : sat_mand vdb X use d = true ->
+  forall a, In a (mandatory use d) -> if a_blk a then sel vdb X a = false else all_sel vdb X a = true.
+Proof.
+  induction d as [a|k l IH] using dep_ind'.
+  - cbn. intros H b [<-|[]]. destruct (a_blk a); auto. now apply negb_true_iff in H.
+  - assert (F : forallb (sat_mand vdb X use) l = true ->
+                forall a, In a (flat_map (mandatory use) l) -> if a_blk a then sel vdb X a = false else all_sel vdb X a = true).
+    { intros H a Ha. apply in_flat_map in Ha as (c & Hc & Ha). rewrite Forall_forall in IH.
+      rewrite forallb_forall in H. eapply IH; eauto. }
+    cbn. destruct k; auto; try (intros _ a []).
+    + destruct (use f); auto. intros _ a [].
+    + destruct (use f); auto. intros _ a [].
+Qed.
+
+Section Plain.
+Variables (vdb : list pkg) (bdeps : bool) (enum : list N) (us : list uatom).
+Hypothesis Hv : wf_vdb vdb bdeps.
+Hypothesis Hp : is_perm_ids (length vdb) enum = true.
+Hypothesis Hnc : forall rq, requested vdb us = Some rq -> no_compound vdb bdeps rq.
+
+Theorem no_silent_omission L : stage_set vdb enum bdeps us = ROk L ->
+  exists rq X, requested vdb us = Some rq /\ ids_of vdb L = Some X /\
+    (* every requested atom and every mandatory active atom of a selected package has an installed
+       match, and all its installed matches are selected *)
+    (forall a, In a rq -> a_blk a = false -> amatch vdb a <> [] /\ incl (amatch vdb a) X) /\
+    (forall i p d a, In i X -> pkg_at vdb i = Some p -> In d (top_deps bdeps p) ->
+       In a (mandatory (spec_use p) d) -> a_blk a = false -> amatch vdb a <> [] /\ incl (amatch vdb a) X) /\
+    (* no selected package is matched by a requested blocker or by a blocker active in a selected package *)
+    (forall b q, In b rq -> a_blk b = true -> In q (amatch vdb b) -> ~ In q X) /\
+    (forall i p b q, In i X -> pkg_at vdb i = Some p -> In b (active_of bdeps p) -> a_blk b = true ->
+       In q (amatch vdb b) -> ~ In q X).
+Proof.
+  intros E. destruct (resolve_valid vdb bdeps enum us Hv Hp Hnc L E) as (rq & X & E1 & E2 & R1 & R2 & R3 & R4 & _).
+  exists rq, X. split; auto. split; auto.
+  unfold v_roots in R1. rewrite forallb_forall in R1.
+  unfold v_closed in R2. rewrite forallb_forall in R2.
+  unfold v_unblocked in R4. apply andb_true_iff in R4 as [R4 R5]. rewrite forallb_forall in R4, R5.
+  repeat split.
+  - specialize (R1 a H). rewrite H0 in R1. cbn in R1. now apply all_sel_spec in R1.
+  - specialize (R1 a H). rewrite H0 in R1. cbn in R1. now apply all_sel_spec in R1.
+  - specialize (R2 i H). rewrite H0 in R2. apply andb_true_iff in R2 as [_ R2]. rewrite forallb_forall in R2.
+    pose proof (sat_mand_mandatory vdb X (spec_use p) d (R2 d H1) a H2) as S. rewrite H3 in S.
+    now apply all_sel_spec in S.
+  - specialize (R2 i H). rewrite H0 in R2. apply andb_true_iff in R2 as [_ R2]. rewrite forallb_forall in R2.
+    pose proof (sat_mand_mandatory vdb X (spec_use p) d (R2 d H1) a H2) as S. rewrite H3 in S.
+    now apply all_sel_spec in S.
+  - intros b q Hb Hblk Hq Hx. specialize (R4 b Hb). rewrite Hblk in R4. cbn in R4. apply negb_true_iff in R4.
+    assert (sel vdb X b = true) by (apply sel_spec; eauto). congruence.
+  - intros i p b q Hi Hpk Hb Hblk Hq Hx. specialize (R5 i Hi). rewrite Hpk in R5. rewrite forallb_forall in R5.
+    specialize (R5 b Hb). rewrite Hblk in R5. cbn in R5. apply negb_true_iff in R5.
+    assert (sel vdb X b = true) by (apply sel_spec; eauto). congruence.
+Qed.
+End Plain.
